@@ -456,16 +456,23 @@ func verifC17RouteTable() {
 
 // ---- fan-out: the real clusterinfo below the handlers ----
 
-// Open nsqadmin (no admin list) or an admin; L nsqlookupds x N nsqds (or --nsqd-http-address
-// mode); optionally ONE upstream whose POSTs fail. Through the real handler and the real
-// clusterinfo (only the HTTP client is replaced), every relevant upstream gets the action:
+// Open nsqadmin (no admin list) or an admin; L nsqlookupds x N nsqds producing the topic (or
+// --nsqd-http-address mode), optionally one more nsqd of the cluster that does NOT produce it;
+// the nsqd addresses laid out as distinct hosts on one port / ONE host (one broadcast address) on
+// distinct ports / a mix; every producer registered with every nsqlookupd or each with one of
+// them only; optionally ONE upstream whose POSTs fail. Through the real handler and the real
+// clusterinfo, producer discovery included (only the HTTP client is replaced: /lookup, /stats,
+// /info answer what the scripted nsqlookupds and nsqds know), the action reaches exactly the
+// relevant upstreams:
 //   create topic            -> /topic/create on every nsqlookupd
 //   create topic + channel  -> also /channel/create on every nsqlookupd and every nsqd producing the topic
 //   delete topic / channel  -> /topic/delete | /channel/delete on every nsqlookupd and every producing nsqd
 //   pause/unpause/empty     -> /topic/<a> | /channel/<a> on every producing nsqd
-//   tombstone node          -> /topic/tombstone on every nsqlookupd and /topic/delete on that node
-// and a failing upstream does not keep the others from being asked. Without an admin identity
-// nothing at all is sent (same check as VerifC17_MutatingHandlers, on the HTTP surface).
+//   tombstone node          -> /topic/tombstone on every nsqlookupd and /topic/delete on that node only
+// where "every producing nsqd" means every distinct broadcast address AND port, nothing is sent
+// to an nsqd that does not produce the topic, and a failing upstream does not keep the others
+// from being asked. Without an admin identity nothing at all is sent (same check as
+// VerifC17_MutatingHandlers, on the HTTP surface).
 func VerifC17_FanOut() { verifrt.Atomic(verifC17FanOut) }
 
 func verifC17FanOut() {
@@ -476,15 +483,26 @@ func verifC17FanOut() {
 	if a.kind != "CreateTopicChannel" && a.kind != "TombstoneNodeForTopic" && verifrt.Choice("nsqdMode", 2) == 1 {
 		nLookupd = 0
 	}
-	u := vNewClusterHTTP(nLookupd, nNsqd)
+	// identity: open, admin, or refused
+	who := verifrt.Choice("who", 3)
+	// topology (immaterial when the request is refused: nothing may be sent at all)
+	nIdle, layout, view := 0, vHostsDiffer, vViewAll
+	if who != 2 {
+		nIdle = verifrt.Choice("idleNsqds", 2)
+		if nNsqd+nIdle > 1 {
+			layout = verifrt.Choice("layout", verifrt.Bound("layouts", 2, 3))
+		}
+		if nLookupd > 1 && nNsqd > 1 {
+			view = verifrt.Choice("registration", 2)
+		}
+	}
+	u := vNewClusterHTTPTopo(nLookupd, nNsqd, nIdle, layout, view)
 	defer u.close()
 	all := append(append([]string{}, u.lookupdAddrs...), u.nsqdAddrs...)
 	if f := verifrt.Choice("failing", len(all)+1); f > 0 {
 		u.failPost = all[f-1]
 	}
-	// identity: open, admin, or refused
 	o := vOptions(u)
-	who := verifrt.Choice("who", 3)
 	hdr := http.Header{}
 	if who > 0 {
 		o.AdminUsers = []string{"root"}
@@ -496,6 +514,9 @@ func verifC17FanOut() {
 	topic, channel, node := u.topic, u.channel, u.nodeName()
 	if a.kind == "CreateTopicChannel" && verifrt.Choice("withChannel", 2) == 0 {
 		channel = ""
+	}
+	if a.kind == "TombstoneNodeForTopic" && who != 2 {
+		node = u.nsqdAddrs[verifrt.Choice("node", nNsqd)]
 	}
 	id := &vIdentity{hdr: hdr}
 	req, ps := vActionRequest(a, id, topic, channel, node, false)
@@ -536,10 +557,23 @@ func verifC17FanOut() {
 	case "TombstoneNodeForTopic":
 		onLookupds("/topic/tombstone", "", node)
 		verifrt.Assert(u.posted(node, "/topic/delete", topic, "", ""), "tombstoned-node-drops-the-topic")
+		for _, n := range u.nsqdAddrs {
+			if n != node {
+				verifrt.Assert(u.postsTo(n) == 0, "tombstone-touches-only-that-node")
+			}
+		}
 	case "PauseTopic", "UnPauseTopic", "EmptyTopic":
 		onNsqds("/topic/"+a.action, "")
 	default:
 		onNsqds("/channel/"+a.action, channel)
+	}
+	// ... and no other: an nsqd that does not produce the topic is not relevant to the action
+	for _, n := range u.idleAddrs {
+		verifrt.Assert(u.postsTo(n) == 0, "action-reaches-no-nsqd-that-does-not-produce-the-topic")
+	}
+	if verifrt.Symbolic() {
+		// (natively a request to an address nobody listens on has no observer)
+		verifrt.Assert(u.strayPosts() == 0, "action-sent-only-to-upstreams-of-the-cluster")
 	}
 	if u.failPost == "" {
 		verifrt.Assert(code == 200, "fanout-all-up-is-200")
@@ -548,4 +582,10 @@ func verifC17FanOut() {
 	verifrt.Reach("fanout-nsqd-mode", nLookupd == 0 && nNsqd == 2)
 	verifrt.Reach("fanout-with-failing-lookupd", nLookupd == 2 && u.failPost == u.lookupdAddrs[0])
 	verifrt.Reach("fanout-with-failing-nsqd", nNsqd == 2 && u.failPost == u.nsqdAddrs[0])
+	verifrt.Reach("fanout-two-nsqds-one-host-two-ports", layout == vPortsDiffer && nNsqd == 2 && nLookupd > 0)
+	verifrt.Reach("fanout-two-nsqds-two-hosts-one-port", layout == vHostsDiffer && nNsqd == 2 && nLookupd > 0)
+	verifrt.Reach("fanout-nsqd-mode-one-host-two-ports", layout == vPortsDiffer && nNsqd == 2 && nLookupd == 0)
+	verifrt.Reach("fanout-idle-nsqd-on-a-producers-host", layout == vPortsDiffer && nIdle == 1)
+	verifrt.Reach("fanout-producers-split-over-nsqlookupds", view == vViewSplit)
+	verifrt.Reach("fanout-tombstone-second-node", a.kind == "TombstoneNodeForTopic" && nNsqd == 2 && node == u.nsqdAddrs[1])
 }
